@@ -96,6 +96,18 @@ fn main() {
                 }
             }
         }
+        // stdin lines `<request>\t<reply>` -> the oracle's verdict on a HAND-WRITTEN reply (PASS / FAIL why): how the oracles
+        // themselves are tested (audit r5 S6)
+        "judge" => {
+            let mut s = String::new();
+            use std::io::Read;
+            std::io::stdin().read_to_string(&mut s).unwrap();
+            for l in s.lines() {
+                if let Some((line, reply)) = l.split_once('\t') {
+                    match prop.oracle(line, reply) { Ok(()) => println!("PASS"), Err(w) => println!("FAIL {}", w) }
+                }
+            }
+        }
         _ => usage(),
     }
 }
